@@ -90,8 +90,15 @@ def discharge(ob, timeout_ms=20000, seed=0, both=False):
     # portfolio: z3 briefly, then cvc5 (far better on sequences), then z3 with the full budget
     first = min(int(timeout_ms), 2500)
     s.set('timeout', first)
-    smt2 = s.to_smt2()  # before check(): afterwards the printer shows preprocessed internals
     r = s.check()
+    smt2 = None
+    if r == z3.unknown or both:
+        # printed from a fresh solver: after check() the printer shows preprocessed internals
+        sp = _solver(timeout_ms, seed)
+        for p in ob.pc:
+            sp.add(p)
+        sp.add(z3.Not(ob.goal))
+        smt2 = sp.to_smt2()
     res = None
     if r == z3.unsat:
         res = {'status': 'proved', 'backend': 'z3', 'time': time.time() - t0}
@@ -222,10 +229,14 @@ def model_value(model, v, heap, memo=None):
             else:
                 items = model_value(model, o.sym, heap, memo)
             r = {'__list__': items, 'flavor': o.flavor}
+            if getattr(o, 'maxlen', None) is not None:
+                r['maxlen'] = o.maxlen
         elif isinstance(o, DObj):
             r = {'__dict__': [(model_value(model, getattr(k, 'sym', k), heap, memo), model_value(model, x, heap, memo)) for k, x in o.items.items()]}
         elif isinstance(o, MObj):
             r = {'__map__': map_value(model, o)}
+        elif hasattr(o, 'ext_model'):
+            r = o.ext_model(lambda x: model_value(model, x, heap, memo))
         elif isinstance(o, Obj):
             r = {'__obj__': o.model.name if o.model is not None else ((o.cls.__module__ + ':' + o.cls.__qualname__) if o.cls is not None else None), 'fields': {}}
             memo[v.oid] = r
@@ -472,6 +483,17 @@ def discharge_all(obligations, timeout_ms=20000, procs=14, seed=0, both=False):
         return []
     _GROUPS = make_groups(obligations) if not both else [[i] for i in range(len(obligations))]
     out = [None] * len(obligations)
+    if not both:
+        # goals that the simplifier already reduces to true need neither a solver nor a worker process
+        rest = []
+        for grp in _GROUPS:
+            if len(grp) == 1 and not obligations[grp[0]].expect_sat and z3.is_true(z3.simplify(obligations[grp[0]].goal)):
+                out[grp[0]] = {'status': 'proved', 'backend': 'simplifier', 'time': 0.0}
+            else:
+                rest.append(grp)
+        _GROUPS = rest
+        if not _GROUPS:
+            return out
     if procs <= 1 or len(_GROUPS) < 4:
         for gi in range(len(_GROUPS)):
             for i, r in _work(gi):
